@@ -124,7 +124,19 @@ def gen_cases(run):
             trap = tp
         if k in ("sort", "intra", "over_multiply", "over_exact", "fewshot", "classwise_index", "classwise_percent") and rng.random() < 0.25:
             spec["inner_shuffle"] = rng.randrange(1000)  # the wrapper sits on a full-length permuting subset of the leaf
-        if k == "classfilter":
+            # ... whose root was analysed by class-aware wrappers before (what is learnt about the root must not stick to layers above it)
+            spec["pre_analyse"] = rng.random() < 0.5
+        if k == "classfilter" and rng.random() < 0.05:
+            # boundary class: a large sparse label space (ImageNet-21k style ids), few distinct labels with many repeats, a few dozen listed classes
+            big = rng.choice([5000, 21841, 60000])
+            nn = rng.randint(300, 700)
+            present = rng.sample(range(big), rng.randint(30, 120))
+            lay = {"n": nn, "ncls": big, "classes": [rng.choice(present) for _ in range(nn)]}
+            spec["layout"] = lay
+            listed = rng.sample(present, rng.randint(5, min(25, len(present)))) + rng.sample(range(big), rng.randint(15, 40))
+            spec["sel"] = sorted(set(listed), key=lambda c: rng.random())
+            spec["form"] = rng.choice(["valid", "invalid"])
+        elif k == "classfilter":
             pool = list(range(2 if lay["ncls"] == 1 else lay["ncls"]))
             spec["sel"] = rng.sample(pool, rng.randint(0, len(pool)))
             spec["form"] = rng.choice(["valid", "invalid", "valid_names", "invalid_names"])
@@ -178,6 +190,13 @@ def _leaf(lay, names=False):
         for leaf_i, pos in inv.items():
             leaf_classes[leaf_i] = lay["classes"][pos]
         ds = Leaf(lay["n"], tag="L", classes=leaf_classes, n_classes=lay["ncls"])
+        if lay.get("pre_analyse"):
+            for mk in (lambda: kdw.ClasswiseSubsetWrapper(ds, end_index=1), lambda: kdw.SortByClassWrapper(ds), lambda: kdw.OversamplingWrapper(ds),
+                       lambda: importlib.import_module("kappadata.utils.class_counts").get_class_counts_and_indices(ds)):
+                try:
+                    mk()
+                except Exception:
+                    pass  # whether the root itself can be analysed is judged by the cases without inner layer
         return kdw.ShuffleWrapper(ds, seed=lay["inner_shuffle"])
     ds = Leaf(lay["n"], tag="L", classes=lay["classes"], n_classes=lay["ncls"])
     if names:
@@ -250,7 +269,7 @@ def run_case(run, spec):
         # the wrapper under test is stacked on ShuffleWrapper(leaf): positions of that base are the "original order" of the promise
         perm = [int(i) for i in kdw.ShuffleWrapper(_leaf(lay), seed=spec["inner_shuffle"]).indices]
         _INV[0] = {leaf_i: pos for pos, leaf_i in enumerate(perm)}
-        lay = dict(lay, classes=[lay["classes"][j] for j in perm], inner_shuffle=spec["inner_shuffle"])
+        lay = dict(lay, classes=[lay["classes"][j] for j in perm], inner_shuffle=spec["inner_shuffle"], pre_analyse=bool(spec.get("pre_analyse")))
         run.count("cases_on_inner_shuffle")
     n, cls, ncls = lay["n"], lay["classes"], lay["ncls"]
     run.cover(k, min(n, 3), _layout_class(lay), "binary-dim1" if ncls == 1 and 1 in cls else "multi")
@@ -280,7 +299,7 @@ def run_case(run, spec):
         want = [i for i in range(n) if keep(cls[i])]
         ok_sel()
         if ids != want:
-            V(f"classfilter:{form}", f"ClassFilterWrapper({kw}) on classes {cls} selected {ids}, promised {want}")
+            V(f"classfilter:{form}", f"ClassFilterWrapper({_s(kw)}) on classes {_s(cls)} selected {_s(ids)}, promised {_s(want)}")
         return
 
     if k == "percent":
